@@ -404,7 +404,7 @@ def run_trial(subj: Subject, cycles: list[list[str]], work: Path, own: dict[str,
 # ================================================================================================ inputs
 DEFAULT_OPTS = dict(layout='v20', compress=(), origin_vertex=True, faceids='full', water=True, overlay_aux=True, vis=True,
                     n_extra=1, extra_game=False, compress_game=(), fractional_bounds=False, detail_shapes=False, hdr=True, bad=(),
-                    aux='normal', adv=True)
+                    aux='normal', adv=True, sprp='layout', empty=False, odd_lzma=False)
 VARIANTS: list[dict] = (
     [dict(layout=l) for l in c10_util.LAYOUTS]
     + [dict(compress=('ENTITIES', 'PLANES', 'LEAFS', 'LIGHTING', 'FACES', 'TEXDATA_STRING_DATA')),
@@ -418,6 +418,15 @@ VARIANTS: list[dict] = (
     # side lumps (cleared by a look, restored only by the view's writer) at the values where they LOOK unused
     + [dict(aux='zero'), dict(aux='default'), dict(aux='mixed'), dict(aux='maxed'), dict(aux='absent'),
        dict(aux='zero', layout='l4d2', compress=('OVERLAY_FADES', 'LEAFMINDISTTOWATER', 'TEXDATA'))]
+    # game-lump layouts chosen by the lump's version field (static props V4 .. V13, the lightmapped 2013 layouts), tables that
+    # are empty in many real maps (the static-prop reader then guesses the layout from the version number alone), LZMA blobs
+    # with parameters / a dictionary size / trailing padding that srctools' own writer never produces
+    + [dict(sprp=4), dict(sprp=7), dict(sprp=8), dict(sprp=10), dict(sprp=11, layout='v21'), dict(sprp='mesa'), dict(sprp='lm7'), dict(sprp='lm10'),
+       dict(sprp=13, layout='chaos'), dict(empty=True), dict(empty=True, sprp=7), dict(empty=True, sprp=10, layout='v21'),
+       dict(empty=True, sprp=11, layout='v21', compress_game=('sprp', 'dprp')),
+       dict(odd_lzma=True, compress=('ENTITIES', 'TEXDATA_STRING_DATA', 'FACES', 'FACEIDS', 'LIGHTING', 'PLANES'),
+            compress_game=('sprp', 'dprp')),
+       dict(odd_lzma=True, layout='l4d2', compress=('LEAFS', 'OVERLAYS', 'MODELS', 'WORLDLIGHTS'), compress_game=('dprp',))]
 )
 # malformed lumps: looking at the view raises (at once, or after other views were parsed), the caller goes on and saves
 BAD_VARIANTS: list[dict] = [
@@ -1200,6 +1209,8 @@ def run(ck: Ck) -> None:
             singles = VIEWS
         elif k < len(c10_util.LAYOUTS):
             singles = rng.sample(VIEWS, 8)
+        elif 'sprp' in opts or 'empty' in opts:     # the game-lump views and what their readers reach
+            singles = ['props', 'detail_props', 'overlays', 'cubemaps']
         elif 'aux' in opts:     # the views that own side lumps (and faces: FACEIDS), each alone
             singles = [v for v in VIEWS if v == 'faces' or sum(1 for w in own.values() if w == v) > 1]
         else:
